@@ -479,8 +479,22 @@ pub fn flatten_ex(doc: &[Node], lay: &[Lay]) -> Vec<(NItem, usize, usize)> {
 }
 
 pub fn flatten_items(doc: &[Node]) -> Vec<NItem> {
-    let (_, lay) = ref_encode(doc);
-    flatten(doc, &lay).into_iter().map(|x| x.0).collect()
+    fn rec(nodes: &[Node], out: &mut Vec<NItem>) {
+        for n in nodes {
+            match &n.kind {
+                Kind::Leaf { val, .. } => out.push(NItem::Leaf(n.id, val.clone())),
+                Kind::RawLeaf(b) => out.push(NItem::Raw(n.id, b.clone())),
+                Kind::Master(ch) => {
+                    out.push(NItem::Start(n.id));
+                    rec(ch, out);
+                    out.push(NItem::End(n.id));
+                }
+            }
+        }
+    }
+    let mut out = Vec::new();
+    rec(doc, &mut out);
+    out
 }
 
 /// depth-first visit of all nodes (mutable), used to apply encodings
